@@ -20,7 +20,7 @@ def model_check(kind, work):
     """all histories of <= 3 runs from every initial content, crash anywhere"""
     d = os.path.join(work, "mc_" + kind)
     os.makedirs(d, exist_ok=True)
-    n = len(dbfiles.OBJECTS[(kind, dbfiles.TARGET[kind])])
+    n = len(dbfiles.full_names(kind, dbfiles.TARGET[kind]))
     tgt = dbfiles.TARGET[kind]
     db = lambda schema, ver, data: '[t |-> "db", schema |-> "%s", ver |-> %s, data |-> "%s", sha |-> "s0"]' % (schema, ver, data)
     init = ['[t |-> "absent"]', '[t |-> "junk", sha |-> "empty"]', '[t |-> "junk", sha |-> "s0"]',
